@@ -127,8 +127,9 @@ namespace Pistache::Tcp
                 if (!isRaw())
                     return BufferHolder(_fd, size_, offset);
 
-                auto detached = _raw.copy(offset);
-                return BufferHolder(detached);
+                // keep the whole buffer and remember where to resume: the size
+                // reported when the write completes is the buffer's full size
+                return BufferHolder(_raw, static_cast<off_t>(offset));
             }
 
         private:
